@@ -85,7 +85,7 @@ def mixture_distribution(dists, weights, merge=False):
     validate_pmf(weights, ops)
 
     if merge:
-        vals = lambda o: [(ops.mult(w, d[o]) if o in d else 0)
+        vals = lambda o: [(ops.mult(w, d[o]) if o in d else ops.zero)
                           for w, d in zip(weights, dists)]
     else:
         vals = lambda o: [ops.mult(w, d[o])
